@@ -59,6 +59,8 @@ STRUCTS = {
     # the accumulator of a resampling read IS the model's `Sampler`
     "Sampler": ("Impl.Sampler", {"resample_state": "vSum", "timestamp_sum": "tsSum", "sampled": "sampled",
                                  "bucket_size": "bucket"}),
+    # what `push_line` touches of the series: its Data (payload size) and the cached range
+    "ByteSeries": ("SeriesView", {"data": "data", "range": "range"}),
 }
 # every field of these structs must be in the map (a new field changes what the type means)
 STRUCTS_EXACT = {"RoughPos", "Pos", "Estimate", "Entry"}
@@ -80,7 +82,10 @@ STD_ENUMS = {
     # `TimeRange { None, Some(RangeInclusive) }` is the model's `Option (first, last)`
     "TimeRange": ("Option", {"None": ("none", 0), "Some": ("some", 1)}),
 }
-MUTSELF_TARGETS = {("TimeRange", "update"), ("DownSampledData", "process"), ("Sampler", "process")}
+MUTSELF_TARGETS = {("TimeRange", "update"), ("DownSampledData", "process"), ("Sampler", "process"), ("ByteSeries", "push_line")}
+# `for x in &mut self.<field>` over the boxed caches: the body is translated ONCE (one cache level), calls on the
+# loop variable become actions
+FOR_EACH_ONCE = {("ByteSeries", "downsampled"): "dynDownSampled"}
 # `self.<field>.push(x)` on the caller's output vectors: actions
 EFFECT_FIELD_PUSH = {("Sampler", "timestamps"): "(CatchUp.outTs {0})", ("Sampler", "data"): "(CatchUp.outItem {0})"}
 # fields that only feed panic messages: statements on them are dropped
@@ -116,9 +121,10 @@ EFFECT_METHODS = {
     ("Data", "clear"): ("CatchUp.clear", False),
     ("Data", "push_data"): ("(CatchUp.push {0} {1})", False),
     (None, "read_with_processor"): ("(CatchUp.replay {0})", True),
+    ("dynDownSampled", "process"): ("(CatchUp.cache {0} {1})", False),
 }
 EFFECT_FIELDS = {("DownSampledData", "lines_to_skip"): "(CatchUp.skip {0})"}
-TRACE_TARGETS = {(None, "add_missing_data"), ("DownSampledData", "process"), ("Sampler", "process")}
+TRACE_TARGETS = {(None, "add_missing_data"), ("DownSampledData", "process"), ("Sampler", "process"), ("ByteSeries", "push_line")}
 SKIP_PARAMS = {"corruption_callback"}
 
 # (file, impl type or None, fn, extra parameters appended to the Lean signature)
@@ -156,6 +162,7 @@ TARGETS = [
     ("src/series.rs", "TimeRange", "update", None),
     ("src/series/downsample.rs", "DownSampledData", "process", None),
     ("src/series/data/inline_meta.rs", "Sampler", "process", None),
+    ("src/series.rs", "ByteSeries", "push_line", None),
 ]
 
 LEAN_KEYWORDS = {"end", "at", "from", "open", "section", "then", "do", "fun", "in", "have", "show", "where",
@@ -190,7 +197,7 @@ def norm_type(t, impl=None):
 
 
 def is_bytes(t):
-    return t is not None and (t.startswith("[u8") or t in ("Vec<u8>", "bytes"))
+    return t is not None and (t.startswith("[u8") or t in ("Vec<u8>", "bytes", "implAsRef<[u8]>"))
 
 
 def is_iter(t):
@@ -887,7 +894,7 @@ class Tr:
     def tr_mcall(self, e):
         recv_e, name, args = e[1], e[2], e[3]
         # iterator adaptors that only make sense to the `for` translation
-        if name in ("iter", "clone", "cloned", "copied", "by_ref", "into_iter"):
+        if name in ("iter", "clone", "cloned", "copied", "by_ref", "into_iter", "as_ref"):
             v = self.tr(recv_e)
             if v.ty and name in ("cloned", "copied"):
                 pass
@@ -941,8 +948,26 @@ class Tr:
             t = self.fresh()
             elem = generic_arg(self.scope[recv_e[1][0]].replace("implIterator<Item=", "X<"), "X")
             return Val([("letp", t, f"{it}.head?"), ("assign", it, f"{it}.tail")], t, "pure", f"Option<{norm_type(elem)}>")
+        if recv_e[0] == "path" and len(recv_e[1]) == 1 and self.scope.get(recv_e[1][0]) == "dynDownSampled" \
+           and self.trace and ("dynDownSampled", name) in EFFECT_METHODS:
+            tmpl, final = EFFECT_METHODS[("dynDownSampled", name)]
+            st, ts = [], []
+            for a in args:
+                s_, t_, _v = self.atom_of(a)
+                st += s_; ts.append(t_)
+            return Val(st + [("assign", "trace_", f"trace_ ++ [{tmpl.format(*ts)}]")], "()", "mon_unit")
         recv = self.tr(recv_e)
         ty = recv.ty
+        if self.mutself and (ty, name) in MUTSELF_TARGETS and (ty, name) in self.generated \
+           and recv_e[0] == "field" and recv_e[1] == ("path", ["self"]) and self.impl in STRUCTS:
+            fld = STRUCTS[self.impl][1][recv_e[2]]
+            st, ts = list(recv.stmts), []
+            for a in args:
+                s_, t_, _v = self.atom_of(a)
+                st += s_; ts.append(t_)
+            t = self.fresh()
+            call = "(" + lean_name(ty, name) + " self." + fld + "".join(" " + x for x in ts) + ")"
+            return Val(st + [("letm", t, call), ("assign", "self", "{ self with " + fld + " := " + t + ".1 }")], "()", "mon_unit")
         if self.trace and (ty, name) in EFFECT_METHODS:
             tmpl, final = EFFECT_METHODS[(ty, name)]
             if final:
@@ -1309,6 +1334,15 @@ class Tr:
 
     def for_stmt(self, st):
         _, pat, it, body = st
+        it0 = it
+        while it0[0] == "ref":
+            it0 = it0[1]
+        if it0[0] == "field" and it0[1] == ("path", ["self"]) and (self.impl, it0[2]) in FOR_EACH_ONCE and pat[0] == "pbind":
+            saved = dict(self.scope)
+            self.scope[pat[1]] = FOR_EACH_ONCE[(self.impl, it0[2])]
+            sq = self.seq(body, "unit")
+            self.scope = saved
+            return sq
         v = self.tr(it)
         s, t = self.atom(v)
         if v.ty and v.ty.startswith("Enumerate<Vec<"):
